@@ -69,7 +69,12 @@ func NewRequestContext(ctx context.Context, req *envoy_auth.CheckRequest) *Reque
 		rawQuery = query
 	}
 
-	path, _ := url.PathUnescape(rawPath)
+	path, err := url.PathUnescape(rawPath)
+	if err != nil {
+		// envoy does not refuse a request target with an invalid escape sequence. It cannot be decoded,
+		// so the pipeline sees it as received
+		path = rawPath
+	}
 
 	return &RequestContext{
 		ctx:        ctx,
